@@ -365,6 +365,8 @@ func c03Many(k c03Case) (key, detail string) {
 				if i == n-1 {
 					v = patBytes(5, 1)
 				}
+			case 5: // empty values: the most attributes a body of 65535 bytes can hold is 16383
+				t, v = stun.AttrType(0x4000+i%7), nil
 			}
 			if viaBuild {
 				setters = append(setters, stun.RawAttribute{Type: t, Value: v})
@@ -601,8 +603,16 @@ func init() {
 			}
 			// long attribute lists with repeated types (Add and Build), and two live messages
 			var mi int64
-			for _, n := range []int{2, 8, 16, 17, 31, 32, 33, 40, 64, 65, 100, 128, 129, 300} {
-				for pat := 0; pat < 5; pat++ {
+			// the ladder goes on to the largest count the 16-bit length field can describe (16383 empty attributes): a
+			// limit on the COUNT that only one side of the codec knows about shows nowhere else
+			for _, n := range []int{2, 8, 16, 17, 31, 32, 33, 40, 64, 65, 100, 128, 129, 300, 511, 512, 513, 1000, 1023, 1024, 1025, 2047, 2048, 2049, 4095, 4096, 4097, 8191, 8192, 8193, 16382, 16383} {
+				for pat := 0; pat < 6; pat++ {
+					if n > 4097 && pat != 5 {
+						continue // (values of 1-9 bytes: 12 bytes per attribute on average, the body would pass 65535)
+					}
+					if n > 300 && pat == 2 {
+						continue
+					}
 					for via := 0; via < 2; via++ {
 						mi++
 						if !c.Mine(mi) {
